@@ -354,6 +354,7 @@ type CL struct {
 	Echo          func(context.Context, int, int) (string, error)
 	Count         func(context.Context, int) (int, error)
 	CountRetry    func(context.Context, int) (int, error) `retry:"true" rpc_method:"SH.Count"`
+	AddRetry      func(int, int) (int, error)             `retry:"true" rpc_method:"SH.Add"` // retry-tagged, no context parameter
 	Block         func(context.Context, int) (int, error)
 	BlockRetry    func(context.Context, int) (int, error) `retry:"true" rpc_method:"SH.Block"`
 	Note          func(int)                               `notify:"true"`
